@@ -9,16 +9,24 @@ EXPLANATION = (
     "ascon_prf_free, ascon_hmac(a)_free, ascon_kmac(a)_free, ascon_kdf(a)_free, ascon_hkdf(a)_free, ascon_random_free, "
     "the three ISAP key free functions, ascon_masked_key_128/160_free and ascon_masked_state_free. ascon_clean is "
     "inlined in its portable volatile-pointer form (the configuration without HAVE_EXPLICIT_BZERO); its own contract "
-    "is checked for bounded sizes."
+    "is checked for bounded sizes. Stack temporaries of two one-shot functions are followed by ghost wrappers (the callers' "
+    "calls to ascon_xof_init_custom/copy/free and ascon_clean are routed through counting wrappers at compile time): "
+    "ascon_pbkdf2 frees every XOF state that absorbed the password on every path and wipes U/T whole with ascon_clean; the "
+    "HKDF/HKDFA one-shot wipes its whole state object with ascon_clean (a plain memset, which the optimiser may drop, fails)."
 )
 ASSUMPTIONS = [
     "source-level technique: that the optimising compiler keeps the wipe (explicit_bzero / volatile stores) at -O3 cannot be decided by a contract on the C source",
     "builds with HAVE_EXPLICIT_BZERO / memset_s call libc instead of the verified fallback loop: that libc call is trusted to zero exactly [buf, buf+size)",
     "C++ clear()/destructors are not covered (CBMC's C++ front end cannot parse this repository's C++)",
     "padding bytes after count/mode in the sponge-style structs are not written by the library and are not checked",
-    "stack temporaries of the one-shot functions (tag, preserve, word) are outside this check",
+    "stack temporaries of the other one-shot functions (AEAD tag/state, masked word/preserve, SIV, PRF short) are outside this check",
 ]
 
 
 def groups(tier):
-    return common.free_groups("c13", ["C13"], tier=tier)
+    gs = common.free_groups("c13", ["C13"], tier=tier)
+    for g in common.cxof_kdf_groups("c13.tmp", ["C13"], ("pbkdf2",), tier=tier):
+        if any(k in g.name for k in ("count0.out32", "count1.out33", "count2.out1.", "count3.out33")):
+            gs.append(g)
+    gs += [g for g in common.hkdf_groups("c13.tmp", ["C13"], tier="quick") if ".oneshot.len" in g.name and ("len32" in g.name or "len40" in g.name)]
+    return gs
